@@ -11,6 +11,7 @@ from loguru import logger
 from mdpax.core.problem import Problem, ProblemConfig
 from mdpax.core.solver import SolverConfig, SolverInfo, SolverState
 from mdpax.solvers.value_iteration import ValueIteration
+from mdpax.utils import _verif
 from mdpax.utils.types import (
     ActionSpace,
     ActionVector,
@@ -467,10 +468,14 @@ class SemiAsyncValueIteration(ValueIteration):
             SolverState containing final values [n_states], optimal policy [n_states, action_dim],
             and SolverInfo including batch ordering info
         """
+        if _verif.ENABLED:
+            _verif.emit("solve_begin", solver=self, max_iterations=max_iterations)
         for _ in range(max_iterations):
             self.iteration += 1
             new_values, conv = self._iteration_step()
             self.values = new_values
+            if _verif.ENABLED:
+                _verif.emit("sweep", solver=self, conv=conv)
 
             logger.info(
                 f"Iteration {self.iteration}: {self._convergence_desc}: {conv:{self.convergence_format}}"
@@ -480,6 +485,8 @@ class SemiAsyncValueIteration(ValueIteration):
                 logger.info(
                     f"Convergence threshold reached at iteration {self.iteration}"
                 )
+                if _verif.ENABLED:
+                    _verif.emit("converged", solver=self)
                 break
 
             if (
@@ -501,6 +508,8 @@ class SemiAsyncValueIteration(ValueIteration):
         logger.info("Policy extracted")
 
         logger.success("Semi-async value iteration completed")
+        if _verif.ENABLED:
+            _verif.emit("solve_end", solver=self)
         return self.solver_state
 
     @property
